@@ -224,6 +224,12 @@ impl<T: FftNum> FftPlannerSse<T> {
         self.plan_fft(len, FftDirection::Inverse)
     }
 
+    /// Plan report for verification: the recipe for `len` as Debug text, without building any transform.
+    #[cfg(rustfft_verif)]
+    pub fn verif_design(&mut self, len: usize) -> String {
+        format!("{:?}", self.design_fft_for_len(len))
+    }
+
     // Make a recipe for a length
     fn design_fft_for_len(&mut self, len: usize) -> Arc<Recipe> {
         if len < 1 {
@@ -245,6 +251,8 @@ impl<T: FftNum> FftPlannerSse<T> {
             instance
         } else {
             let fft = self.build_new_fft(recipe, direction);
+            #[cfg(rustfft_verif)]
+            crate::verif_hooks::emit_build(recipe, &fft);
             self.algorithm_cache.insert(&fft);
             fft
         }
